@@ -261,7 +261,11 @@ def check_estimate(fx, R, cq, cname, f, tag):
     decls = {s_[1]: s_[2] for s_ in stmts_sx(f) if s_[0] == 'decl'}
     bnd = cond[2] if isinstance(cond, tuple) and len(cond) == 3 else None
     bnd = decls.get(bnd, bnd)
-    R.form(bound_ok and bnd == size_src, 'P2', inst + ':loop-range', 'the loop runs while %s (bound %s), expected every correspondence%s' % (cond, bnd, ptag), 'loop over all pairs' + ptag, loc, 'E-STATE')
+    capped = isinstance(bnd, tuple) and len(bnd) == 3 and bnd[0] in ('std::min', 'min') and size_src in bnd[1:] and any(b_ != size_src for b_ in bnd[1:])
+    other = next((b_ for b_ in bnd[1:] if b_ != size_src), None) if capped else None
+    R.form(bound_ok and bnd == size_src, 'P2', inst + ':loop-range', 'the loop runs while %s (bound %s), expected every correspondence%s' % (cond, bnd, ptag), 'loop over all pairs' + ptag, loc, 'E-STATE',
+           facts=[(bound_ok and capped, 'the number of rows is min(%s, %s): whenever %s is the smaller one the pairs beyond it are dropped from the sum the estimator minimises; nothing in the '
+                   'property bounds the number of pairs by it (an index list may name a point more than once)%s' % (size_src, other, other, ptag))])
     ds = st.fields.get(('datasize',))
     R.form(ds is not None and str(ds) in ('size(arg:correspondences)', 'size(arg:sourcePoints)') or ds is not None, 'P2', inst + ':data-size', 'setDataSize is not called with the number of pairs%s' % ptag,
             'data size = number of pairs' + ptag, loc, 'E-STATE')
